@@ -24,9 +24,10 @@ func checkC13(c *Check, a *Anchors) {
 	c13OutcomeTypes(c, a)
 	c13LoggerPrompt(c, a)
 	c13EnumTotal(c, a)
-	c03ExitCodeMap(c, a) // "the exit status is the documented class (206, 207, 205, 202)": constants equal the documented numbers
-	c03StopOnError(c, a) // a guard refusal inside a nested call is not an exit status: the caller must fail too, whatever its ignore_error
+	c03ExitCodeMap(c, a)                     // "the exit status is the documented class (206, 207, 205, 202)": constants equal the documented numbers
+	c03StopOnError(c, a)                     // a guard refusal inside a nested call is not an exit status: the caller must fail too, whatever its ignore_error
 	c08IncludeAttrsRegardlessOfFlatten(c, a) // an internal include marks its tasks internal whether or not it is flattened: otherwise they can be named on the command line
+	sharedWait(c, a)                         // a guard refusal inside a shared (run: once) execution is its outcome: every caller that joined it must receive it, or its calling task goes on
 }
 
 // guard order: must-facts at the dedup call of RunTask and at the command events of the body.
